@@ -267,9 +267,70 @@ def options_through_builtin_glue():
     return None
 
 
+def options_through_entry_points():
+    """the options given to ANY entry point (extract, extract_since, extract_until with a count or a frame as limit) are the
+    ones that govern the hooks run within it"""
+    class Crowd:
+        def __init__(self, kids):
+            self.kids = kids
+
+        def __enter__(self):
+            return self
+
+        def __exit__(self, *a):
+            return False
+
+    @stackscope.elaborate_context.register(Crowd)
+    def _elab_crowd(mgr, context):
+        context.children = [stackscope.extract_child(k, for_task=True) for k in mgr.kids]
+
+    def kid():
+        yield "kid"
+    kids = [kid()]
+    next(kids[0])
+    box = {}
+
+    def inner(call):
+        box["inner"] = sys._getframe(0)
+        return call()
+
+    def outer(call):
+        box["outer"] = sys._getframe(0)
+        with Crowd(kids):
+            return inner(call)
+    entries = {
+        "extract_since(frame)": lambda wc, rct: stackscope.extract_since(box["outer"], with_contexts=wc, recurse_child_tasks=rct),
+        "extract_until(frame, limit=count)": lambda wc, rct: stackscope.extract_until(box["inner"], limit=2, with_contexts=wc, recurse_child_tasks=rct),
+        "extract_until(frame, limit=frame)": lambda wc, rct: stackscope.extract_until(box["inner"], limit=box["outer"], with_contexts=wc, recurse_child_tasks=rct),
+        "extract(StackSlice)": lambda wc, rct: stackscope.extract(stackscope.StackSlice(outer=box["outer"], inner=box["inner"]), with_contexts=wc, recurse_child_tasks=rct),
+    }
+    try:
+        for name, entry in entries.items():
+            for wc in (True, False):
+                for rct in (True, False):
+                    st = outer(lambda: entry(wc, rct))
+                    fr = next((f for f in st.frames if f.funcname == "outer"), None)
+                    if fr is None or st.error is not None:
+                        return "%s: frames %s error %r" % (name, [f.funcname for f in st.frames], st.error)
+                    if not wc:
+                        if fr.contexts:
+                            return "%s with_contexts=False: the frame has contexts" % name
+                        continue
+                    got = [len(c.frames) for c in fr.contexts[0].children] if fr.contexts else None
+                    if got != ([1] if rct else [0]):
+                        return ("%s with_contexts=True recurse_child_tasks=%s: the child stacks reported by a hook have frame counts %s"
+                                % (name, rct, got))
+    finally:
+        kids[0].close()
+    return None
+
+
 def main():
     data = json.load(open(sys.argv[1]))
     out = {"n": 0, "steps": 0, "mismatches": []}
+    why3 = options_through_entry_points()
+    if why3:
+        out["mismatches"].append({"step": 0, "act": {"a": "options through the entry points"}, "diff": why3, "behaviour": -1})
     why2 = options_through_builtin_glue()
     if why2:
         out["mismatches"].append({"step": 0, "act": {"a": "extract through the contextlib glue"}, "diff": why2, "behaviour": -1})
